@@ -181,7 +181,7 @@ pub struct STup(pub u8, pub i64, pub String);
 pub struct STup0();
 #[derive(Serialize, Schema, Clone, Debug)]
 pub struct SNamed0 {}
-derived! { struct SNamed { a: u32, b: bool, c: Option<i64>, d: String, e: (u8, i16) } }
+derived! { struct SNamed { z: u32, b: bool, c: Option<i64>, a: String, e: (u8, i16) } }
 derived! { struct SGen<T> { t: T, n: u16, v: Vec<T> } }
 derived! { struct SNest { inner: SNamed, g: SGen<i128>, arr: [u16; 3] } }
 #[derive(Serialize, Schema, Clone, Debug)]
@@ -200,6 +200,8 @@ pub enum SEnum {
     F {},
     G(SNew),
     H(Vec<u16>),
+    I { only: u16 },
+    J { zeta: u8, alpha: bool },
 }
 #[derive(Serialize, Schema, Clone, Debug)]
 pub enum SOuter {
@@ -209,7 +211,7 @@ pub enum SOuter {
 }
 
 fn senum_vals() -> Vec<SEnum> {
-    let mut v = vec![SEnum::A, SEnum::E(), SEnum::F {}, SEnum::G(SNew(-300)), SEnum::H(vec![]), SEnum::H(vec![1, 70000u32 as u16])];
+    let mut v = vec![SEnum::A, SEnum::E(), SEnum::F {}, SEnum::G(SNew(-300)), SEnum::H(vec![]), SEnum::H(vec![1, 70000u32 as u16]), SEnum::I { only: 300 }, SEnum::J { zeta: 1, alpha: false }, SEnum::J { zeta: 0, alpha: true }];
     v.extend(i16::small().into_iter().map(SEnum::B));
     for a in u8::small() {
         for b in i32::small() {
